@@ -451,6 +451,31 @@ def workload(ctx, repo):
             ctx.case = case
             ctx.ev("cases.formatting-attributes")
             run_case(ctx, repo, case)
+    # quarter hours either side of midnight, spelled with whole seconds in
+    # UTC and as decimal hours in whole-hour offsets east and west (re-zoning
+    # such an operand crosses midnight in either direction)
+    if ctx.worker == 0:
+        for mode in R.MODES:
+            for y, doy in ((2020, 60), (2021, 1), (2019, 365), (2020, 70)):
+                day0 = (R.days_before_year(mode, y) + doy - 1) * 86400
+                pts = []
+                for j, q in enumerate((-3, -2, -1, 1, 2, 3)):
+                    inst = day0 + q * 900
+                    pts.append(gen.tp_from_instant(
+                        rng, mode, inst, rep=gen.REPS[j % 3], offset=(0, 0),
+                        allow_2400=False))
+                    for oh in (1, -1, 2, -3):
+                        lrd, lsod = divmod(inst + oh * 3600, 86400)
+                        kw = gen.date_kwargs(mode, gen.REPS[(j + oh) % 3],
+                                             lrd)
+                        kw.update(hour_of_day=lsod // 3600,
+                                  hour_of_day_decimal=lsod % 3600 / 3600.0)
+                        kw.update(gen.zone_kwargs((oh, 0)))
+                        pts.append(kw)
+                case = {"op": "cluster", "mode": mode, "points": pts}
+                ctx.case = case
+                ctx.ev("cases.decimal-hours-round-midnight")
+                run_case(ctx, repo, case)
     n = 1500 if ctx.tier == "quick" else 6000
     for k in range(n // 10):
         case = binary_fraction_cluster(rng, R.MODES[k % 4])
